@@ -396,6 +396,12 @@ def main(tier, seed, replay=None):
     for i in range(ncirc):
         if i % 5 == 4:
             specs.append(("random", clt_product(rs, int(rs.choice([2, 3, 4])))))
+        elif i % 5 == 3:
+            # a component shared by mixtures of different nesting levels: its parents sit at different depths, so its layer is
+            # fixed by the DEEPEST of them
+            from deeprob.spn.structure.node import assign_ids as _aid
+            r_ = G.rand_nested_mixture(rs); _aid(r_)
+            specs.append(("random", r_))
         elif i % 2 == 0:
             specs.append(("shared", shared_child_dag(rs, int(rs.choice([2, 4, 8, 16])), n_vars=int(rs.randint(1, 4)), kind=["prod", "sum"][(i // 2) % 2])))
         else:
